@@ -208,6 +208,10 @@ pub fn run(p: &Params) -> Outcome {
                     let k = rng.usize_below(big.len() - 65_000);
                     check_bytes(ctx, &big[k..], Some(&wt), "streams_longer_than_64KiB");
                 }
+                1 if i % 64_000 == 33 => {
+                    let (fl, _) = gen::flood_stream(&mut rng);
+                    check_bytes(ctx, &fl, Some(&wt), "streams_with_a_flood_of_dead_candidates");
+                }
                 1 => {
                     let max = if i % 800 == 1 { 65_536 } else { 3_000 };
                     let (mut s, _) = gen::stream(&mut rng, max);
